@@ -184,8 +184,12 @@ Proof.
       * rewrite Hsr in H. simpl in H.
         destruct (nz (hlistaccess_denied (f_access f) hl_stread_mode)).
         { inversion H; subst. fin. }
-        { inversion H; subst. fin.
-          apply (inv_new_rec (hlistaccess_access hl_stread_mode) false false true tag ref). reflexivity. }
+        { assert (I2 : ro_inv (fst (new_rec f (hlistaccess_access hl_stread_mode) false false true tag ref))).
+          { apply (inv_new_rec (hlistaccess_access hl_stread_mode) false false true tag ref). reflexivity. }
+          unfold new_rec in H, I2. simpl in H, I2.
+          destruct (d_ext d || f_vset f); inversion H; subst;
+            (split; [ first [ exact I2 | apply inv_check_g; exact I2 ]
+                    | split; [ reflexivity | let C := fresh in intro C; unfold DFACC_WRITE in *; contradiction ] ]). }
       * unfold new_rec in H. simpl in H.
         match type of H with (if f_vset f then ?g else _, _, _) = _ => assert (I2 : ro_inv g) end.
         { unfold ro_inv; simpl; split; [assumption | split; [assumption | split; [constructor; [exact Hfl | assumption] | assumption]]]. }
@@ -457,7 +461,8 @@ Proof.
     - destruct (d_special d).
       + unfold new_rec in E. simpl in E. match type of E with (if nz ?x then _ else _) = _ => destruct (nz x) end.
         * inversion E; subst. simpl. do 5 (split; [reflexivity|]). left. split; reflexivity.
-        * unfold new_rec in E. simpl in E. inversion E; subst. simpl. do 5 (split; [reflexivity|]). right. split; [reflexivity|]. eexists. split; reflexivity.
+        * destruct (d_ext d || false); [| unfold hicheckfileversion in E; simpl in E ];
+            inversion E; subst; simpl; do 5 (split; [reflexivity|]); right; (split; [reflexivity|]); eexists; split; reflexivity.
       + unfold new_rec in E. simpl in E. inversion E; subst. simpl. do 5 (split; [reflexivity|]). right. split; [reflexivity|]. eexists. split; reflexivity.
     - simpl in E. inversion E; subst. simpl. do 5 (split; [reflexivity|]). left. split; reflexivity. }
   destruct F as (A & B & C & D & G & [[Ha Hr] | [Ha [a [Hr Hid]]]]).
